@@ -41,14 +41,14 @@ def _init_worker(check_id):
 
 def _run_chunk(args):
     idx, chunk, tier = args
-    t0 = time.time()
+    t0 = time.process_time()  # CPU time of this worker (children such as the CBC solver are not included)
     try:
         res = _MOD.run_chunk(chunk, tier)
         if not isinstance(res, Result):
             raise env.HarnessError("run_chunk must return a Result")
-        return idx, res, None, time.time() - t0
+        return idx, res, None, time.process_time() - t0
     except BaseException:  # a crash of the harness, not of chempy: chempy exceptions are observations
-        return idx, None, traceback.format_exc(), time.time() - t0
+        return idx, None, traceback.format_exc(), time.process_time() - t0
 
 
 def _pool(check_id, seedval, n):
